@@ -103,8 +103,14 @@ class Replayer(object):
                                 b.fit(m, others[zlib.crc32(key.encode()) // 3 % len(others)])
                                 for meth in b.obs_methods():
                                     b.query_any(m, meth)
+                                b.sample(m, 2)
                             except Exception:
                                 pass
+                            b.fit(m, x['d'])
+                            if x['s']:
+                                b.set_seed(m, x['s'], self.seedform)        # the generator is that of a freshly seeded model again
+                            objs[i] = m
+                            continue
                         b.fit(m, x['d'])
                     objs[i] = m
                 self.objs = objs
